@@ -4,6 +4,7 @@ package c15
 
 import (
 	"fmt"
+	"time"
 	"math/rand"
 	"strings"
 
@@ -21,7 +22,7 @@ func init() {
 //	init   : "call|add!<srv>!refuse" items (arbitrary status words / refresh times), penq items, adv<ns>
 //	client : refresh|<interval>  or  revive|<interval>|<scope>|<countdown>
 func exec(op string, args []string) []string {
-	if op != "cycle" || len(args) != 4 {
+	if (op != "cycle" && op != "cycle0") || len(args) != 4 {
 		return []string{"bad-op"}
 	}
 	var out []string
@@ -29,6 +30,9 @@ func exec(op string, args []string) []string {
 		opts := world.DefaultOptions()
 		fmt.Sscanf(args[0], "%d", &opts.RefreshRetries)
 		fmt.Sscanf(args[1], "%d", &opts.RevivalRetries)
+		if op == "cycle0" {
+			opts.Start = Epoch0
+		}
 		out = ucops.RunUC(opts, args[2], args[3], "-")
 	})
 	if !ok {
@@ -37,14 +41,21 @@ func exec(op string, args []string) []string {
 	return out
 }
 
+// Epoch0: the clock of `cycle0` cases starts on 1970-01-02: below 2^53 ns every instant is an exact float64 queue / index
+// score, so these cases use intervals, countdowns and refresh times at single-nanosecond granularity.
+var Epoch0 = time.Unix(86400, 0).UTC()
+
 func gen(rng *rand.Rand, tier core.Tier, emit core.Emit) {
 	n := 600
 	if tier == core.Thorough {
 		n = 6000
 	}
-	epoch := world.Epoch.UnixNano()
 	sec := int64(1000000000)
 	for c := 0; c < n; c++ {
+		epoch, op, unit := world.Epoch.UnixNano(), "cycle", int64(256)
+		if c%4 == 3 {
+			epoch, op, unit = Epoch0.UnixNano(), "cycle0", 1
+		}
 		adv := int64(rng.Intn(7200)) * sec // the cycle runs at epoch + adv
 		now := epoch + adv
 		interval := int64(1+rng.Intn(600)) * sec
@@ -61,6 +72,15 @@ func gen(rng *rand.Rand, tier core.Tier, emit core.Emit) {
 			countdown = 0
 		case 1:
 			countdown = interval + int64(rng.Intn(100))*sec // countdown > interval: some probes are dropped
+		case 2:
+			if unit != 1 {
+				break // at 2024 scores a draw at the countdown cannot be told from one just below it (256 ns precision)
+			}
+			// tiny countdowns: the draw hits both ends of [now, now+countdown) all the time (an inclusive upper end shows at once)
+			countdown = []int64{1, 2, 3, 100, 256, 1000, 1000000, 2000000, 3000000, 1000000000}[rng.Intn(10)]
+			if rng.Intn(2) == 0 {
+				interval = countdown // ready = now+countdown would also be the expiry: such a probe is dropped by the queue
+			}
 		}
 		var init []string
 		ns := rng.Intn(13)
@@ -76,9 +96,9 @@ func gen(rng *rand.Rand, tier core.Tier, emit core.Emit) {
 				var t int64
 				switch rng.Intn(5) {
 				case 0:
-					t = now - scope + int64(rng.Intn(3)-1)*256
+					t = now - scope + int64(rng.Intn(3)-1)*unit
 				case 1:
-					t = now - interval + int64(rng.Intn(3)-1)*256
+					t = now - interval + int64(rng.Intn(3)-1)*unit
 				default:
 					t = now - int64(rng.Intn(4000))*sec
 				}
@@ -95,7 +115,7 @@ func gen(rng *rand.Rand, tier core.Tier, emit core.Emit) {
 				fmt.Sscan(refreshed, &t)
 				later := t + int64(1+rng.Intn(3000))*sec
 				if rng.Intn(3) == 0 {
-					later = t + 256
+					later = t + unit
 				}
 				init = append(init, fmt.Sprintf("call|add!%s/%d/%d/%d/%d!refuse", a, qp, status, ver, later),
 					fmt.Sprintf("call|update!%s/%d/%d/%d/%s!over", a, qp, status, ver+1, refreshed))
@@ -111,6 +131,6 @@ func gen(rng *rand.Rand, tier core.Tier, emit core.Emit) {
 		if rng.Intn(2) == 0 {
 			client = fmt.Sprintf("revive|%d|%d|%d", interval, scope, countdown)
 		}
-		emit("cycle", fmt.Sprint(rng.Intn(6)), fmt.Sprint(rng.Intn(6)), strings.Join(init, ","), client)
+		emit(op, fmt.Sprint(rng.Intn(6)), fmt.Sprint(rng.Intn(6)), strings.Join(init, ","), client)
 	}
 }
